@@ -52,7 +52,7 @@ def ref_name_of(stream, override=None):
     return c01.STREAM_FILES[stream]['ref']
 
 
-def oracle(acc, rec, doc, rep, seg, pos, resp, stream=None, ref_override=None):
+def oracle(acc, rec, doc, rep, seg, pos, resp, stream=None, ref_override=None, vod=False):
     stream = stream or rec['stream']
     kind = rep.content_type
     mode = seg['kind']
@@ -77,9 +77,12 @@ def oracle(acc, rec, doc, rep, seg, pos, resp, stream=None, ref_override=None):
         ref = ref_name_of(stream, ref_override)
         _, ref_dur = st.seg_starts(ref)              # Fraction seconds
         loops = int(Fraction(tf, ts) // ref_dur)
+    vtag = '|vod' if vod else ''
+    if vod and fname is not None and st.files[fname]['segs'][0]['tfdt'] != 0:
+        vtag += '|first-decode-time!=0'
     if mode == 'time':
         if tf != seg['t']:
-            acc.violation(f'C02|time|tfdt!=t|{kind}',
+            acc.violation(f'C02|time|tfdt!=t|{kind}{vtag}',
                           f'{rec["template"]} {rec["opts"]} at {rec["now"]}: {rep.id} $Time$={seg["t"]} carries '
                           f'tfdt {tf} (diff {tf - seg["t"]})', r)
         if frag.duration is None:
@@ -108,11 +111,11 @@ def oracle(acc, rec, doc, rep, seg, pos, resp, stream=None, ref_override=None):
             per_loop = max(abs(ref_tc - nseg * d), abs(ref_tc - own * ts))
             tol += (loops + 1) * per_loop
         if abs(tf - nominal) > tol:
-            acc.violation(f'C02|number|tfdt-far-from-nominal|{kind}',
+            acc.violation(f'C02|number|tfdt-far-from-nominal|{kind}{vtag}',
                           f'{rec["template"]} {rec["opts"]} at {rec["now"]}: {rep.id} $Number$={seg["n"]} nominal '
                           f'{nominal} but tfdt {tf} (tolerance {float(tol):.1f})', r)
-    # alignment clause
-    if fname is not None:
+    # alignment clause (live looping; a static presentation plays the file once)
+    if fname is not None and not vod:
         cands = payload_index(stream, fname).get(hashlib.blake2b(frag.payload, digest_size=12).digest())
         if not cands:
             acc.outcome(('payload-unknown', kind))      # C03 judges payload identity
@@ -167,7 +170,7 @@ def plan(tier):
             continue
         items.append(it)
     # synthetic streams and alternative timing references
-    for stream, names in (('synirr', None), ('synoff', None), ('synnot', None)):
+    for stream, names in (('synirr', None), ('synoff', None), ('synnot', None), ('synwild', None)):
         for tmpl in ('hand_made', 'manifest_e', 'manifest_n'):
             for opts in ({'start': 'explicit', 'depth': '30'}, {'start': 'explicit', 'depth': '30', 'timeline': '1'},
                          {'start': 'epoch', 'depth': '30'}):
@@ -175,6 +178,12 @@ def plan(tier):
                     continue
                 items.append({'stream': stream, 'template': tmpl, 'opts': opts, 'stride': 1 if tier != 'quick' else 6,
                               'tier': tier})
+    for stream in ('bbb', 'tears', 'synirr', 'synoff', 'synnot', 'synwild'):
+        for tmpl in ('hand_made', 'manifest_e', 'manifest_n'):
+            for opts in ({}, {'timeline': '1'}):
+                if opts and tmpl == 'manifest_e':
+                    continue
+                items.append({'stream': stream, 'template': tmpl, 'opts': opts, 'tier': tier, 'mode': 'vod'})
     for stream, ref in (('bbb', 'bbb_a1'), ('bbb', 'bbb_t1'), ('synirr', 'synirr_a1')):
         for opts in ({'start': 'explicit', 'depth': '30'}, {'start': 'explicit', 'depth': '30', 'timeline': '1'}):
             items.append({'stream': stream, 'template': 'hand_made', 'opts': opts, 'tier': tier,
@@ -182,7 +191,32 @@ def plan(tier):
     return items
 
 
+def execute_vod(item):
+    w = W.World.shared()
+    w.begin_item()
+    acc = core.Acc()
+    url = crawl.manifest_url('vod', item['stream'], item['template'], item['opts'])
+    rec = {'stream': item['stream'], 'template': item['template'], 'opts': item['opts'], 'now': crawl.iso(c01.NOON),
+           'url': url, 'ref': None, 'mode': 'vod'}
+
+    def on_manifest(doc, r):
+        timeline_gapless(acc, rec, doc)
+
+    def on_segment(doc, rep, seg, pos, path, sr):
+        if sr.status != 200:
+            acc.outcome(('vod-segment', sr.status))     # C06 judges retrievability
+            return
+        acc.nontriv(('vod', item['stream'], item['template'], tuple(sorted(item['opts'].items())), rep.id, seg['n']))
+        acc.state(('vod', item['stream'], item['template'], tuple(sorted(item['opts'].items())), rep.id, seg['n']))
+        oracle(acc, rec, doc, rep, seg, pos, sr, vod=True)
+
+    crawl.crawl(w, acc, url, c01.NOON, policy='all', on_manifest=on_manifest, on_segment=on_segment)
+    return acc
+
+
 def execute(item):
+    if item.get('mode') == 'vod':
+        return execute_vod(item)
     ref = item.get('ref')
     w = W.World.shared()
     if ref:
@@ -223,6 +257,9 @@ def run(ctx):
 
 
 def replay(record):
+    if record.get('mode') == 'vod':
+        acc = execute_vod({'stream': record['stream'], 'template': record['template'], 'opts': record['opts']})
+        return [(s, v[0]['what']) for s, v in acc.viol.items() if s.startswith('C02|')]
     w = W.World.shared()
     ref = record.get('ref')
     if ref:
